@@ -24,7 +24,7 @@ na = [{"property_id": p, "reason": NOT_APPLICABLE.get(p, "check under constructi
       for p in props if p not in CHECKS]
 m = {
     "version": 1,
-    "setup_cmd": "./check build checked release",
+    "setup_cmd": "./check build checked release cdrv cdrv-asan cdrv-vg miri",
     "hooks": {
         "guard": "--cfg dnssector_verif",
         "enable": "RUSTFLAGS='--cfg dnssector_verif' set by ./check for every build of the harness, which path-depends on /repo",
